@@ -30,7 +30,7 @@ Definition as_chunks (x : sx) : option bytes :=
   end.
 
 (* the parser models are quadratic in the extracted runner: beyond this size only the implementation is run *)
-Definition MODEL_MAX : N := 6000.
+Definition MODEL_MAX : N := 2500.
 
 Definition run (x : sx) : sx :=
   match x with
